@@ -283,7 +283,7 @@ func c09Wire() vh.Unit {
 		}
 		connectHost := func(h *vh.HostConn) string {
 			c := vh.NewCall("vipnode_connect", host, vh.WireNonce(), pool2ConnectHost())
-			r, err := h.Call(vh.RequestText(c, 1), 5*time.Second)
+			r, err := h.Call(vh.RequestText(c, 1), 2*time.Minute)
 			if err != nil {
 				return "error: " + err.Error()
 			}
@@ -296,13 +296,13 @@ func c09Wire() vh.Unit {
 		}
 		defer cws.Close()
 		cc := vh.NewCall("vipnode_connect", client, vh.WireNonce(), vh.DefaultParam("vipnode_connect", ""))
-		if r, err := cws.Call(vh.RequestText(cc, 1), 5*time.Second); err != nil || strings.Contains(r, `"error"`) {
+		if r, err := cws.Call(vh.RequestText(cc, 1), 2*time.Minute); err != nil || strings.Contains(r, `"error"`) {
 			u.Violate("wire/client-connect-failed", fmt.Sprintf("%s %v", r, err), nil)
 			return
 		}
 		askPeers := func() string {
 			c := vh.NewCall("vipnode_peer", client, vh.WireNonce(), vh.DefaultParam("vipnode_peer", ""))
-			r, err := cws.Call(vh.RequestText(c, 2), 8*time.Second)
+			r, err := cws.Call(vh.RequestText(c, 2), 2*time.Minute)
 			if err != nil {
 				return "error: " + err.Error()
 			}
@@ -365,14 +365,14 @@ func c09Wire() vh.Unit {
 			cur.WS.Close()
 			ok := false
 			var last string
-			for i := 0; i < 25 && !ok; i++ {
+			for i := 0; i < 300 && !ok; i++ { // "eventually": up to a minute, normally the first round
 				time.Sleep(200 * time.Millisecond)
 				last = askPeers()
 				ok = strings.Contains(last, "no available host nodes") || strings.Contains(last, "no host nodes")
 			}
 			step("peer-after-last-connection-closed-" + variant)
 			if !ok {
-				u.Violate("wire/closed-host-still-registered", fmt.Sprintf("5 s after the host's last connection ended (%s) a peer request still answers: %s", variant, last), nil)
+				u.Violate("wire/closed-host-still-registered", fmt.Sprintf("a minute after the host's last connection ended (%s) a peer request still answers: %s", variant, last), nil)
 				return
 			}
 		}
